@@ -1306,6 +1306,11 @@ pub fn prepare(trace: &Trace, corpus: &mut Corpus) -> Result<Prepared, String> {
                     }
                 })
                 .ok_or("woff2 rewrap of the wrapped font failed")?;
+                if trace.woff2_tail_claimed && trace.woff2_tail_blocks > 0 {
+                    if let Some(f) = disk::woff2_claim_more(&image, trace.woff2_tail_blocks.saturating_mul(1 << 24)) {
+                        image = f;
+                    }
+                }
                 disk::woff2_attach_meta(&mut image, trace.woff2_meta_blocks);
                 for (i, a) in inner_applied.iter().enumerate() {
                     applied[i] |= *a;
@@ -1347,6 +1352,11 @@ pub fn prepare(trace: &Trace, corpus: &mut Corpus) -> Result<Prepared, String> {
                     }
                 })
                 .ok_or("woff2 rewrap failed")?;
+                if trace.woff2_tail_claimed && trace.woff2_tail_blocks > 0 {
+                    if let Some(f) = disk::woff2_claim_more(&image, trace.woff2_tail_blocks.saturating_mul(1 << 24)) {
+                        image = f;
+                    }
+                }
                 disk::woff2_attach_meta(&mut image, trace.woff2_meta_blocks);
                 for (i, a) in inner_applied.iter().enumerate() {
                     applied[i] |= *a;
